@@ -6,7 +6,7 @@ from . import common, tlc
 from . import bounds_ops as bo
 
 BTAGS = {
-    'RecordsAligned': {'C13'}, 'Partition': {'C13'}, 'NonEmpty': {'C13'},
+    'RecordsAligned': {'C13'}, 'Partition': {'C13'}, 'NonEmpty': {'C13'}, 'VolumeRecords': {'C13'},
     'SplitOK_Shape': {'C13'}, 'SplitOK_Survivors': {'C13'}, 'SplitOK_Partition': {'C13'},
     'SplitOK_ChildMin': {'C13'}, 'SplitOK_Shrinks': {'C13'}, 'SplitOK_Lens': {'C13'},
     'SplitRefused_Frame': {'C13'}, 'TrimOK_Shape': {'C13'}, 'TrimOK_Flags': {'C13'}, 'TrimOK_Trimmed': {'C13'},
